@@ -373,6 +373,16 @@ class Normalizer:
     def run(self, fn: ast.FunctionDef) -> ast.FunctionDef:
         new = copy.deepcopy(fn)
         _spread_tuple_stars(new)
+        # nested one-expression functions / lambdas bound to a local name: called through that name they are the expression
+        self._local_fns = {}
+        for st_ in new.body:
+            if isinstance(st_, ast.FunctionDef) and not st_.decorator_list and not st_.args.vararg and not st_.args.kwarg:
+                b_ = A.strip_docstring(st_.body)
+                if len(b_) == 1 and isinstance(b_[0], ast.Return) and b_[0].value is not None:
+                    self._local_fns[st_.name] = ([a.arg for a in st_.args.args], b_[0].value)
+            elif isinstance(st_, ast.Assign) and len(st_.targets) == 1 and isinstance(st_.targets[0], ast.Name) and isinstance(st_.value, ast.Lambda) \
+                    and not st_.value.args.vararg and not st_.value.args.kwarg:
+                self._local_fns[st_.targets[0].id] = ([a.arg for a in st_.value.args.args], st_.value.body)
         new.body = self._block(new.body, self.cls, self.depth)
         recs = getattr(self, "records", None)
         if recs:
@@ -561,6 +571,34 @@ class Normalizer:
                     nb = _SubstName({st.target.id: c}).visit(copy.deepcopy(b))
                     out.extend(self._stmt(nb, cls, depth))
             return out
+        # functools.reduce(f, xs, init): acc = init; for x in xs: acc = f(acc, x)
+        if isinstance(st, (ast.Assign, ast.Return)) and isinstance(st.value, ast.Call) and (A.dotted(st.value.func) or "") in ("reduce", "functools.reduce") \
+                and len(st.value.args) == 3 and not st.value.keywords and not any(isinstance(a, ast.Starred) for a in st.value.args) \
+                and (isinstance(st, ast.Return) or (len(st.targets) == 1 and isinstance(st.targets[0], ast.Name))):
+            f_, xs_, init_ = st.value.args
+            acc = st.targets[0].id if isinstance(st, ast.Assign) else self._fresh("acc")
+            it = self._fresh("it")
+            a0 = ast.Assign(targets=[ast.Name(id=acc, ctx=ast.Store())], value=init_, lineno=st.lineno)
+            step = ast.Assign(targets=[ast.Name(id=acc, ctx=ast.Store())],
+                              value=ast.Call(func=f_, args=[ast.Name(id=acc, ctx=ast.Load()), ast.Name(id=it, ctx=ast.Load())], keywords=[]), lineno=st.lineno)
+            loop = ast.For(target=ast.Name(id=it, ctx=ast.Store()), iter=xs_, body=[step], orelse=[], type_comment=None)
+            seq: List[ast.stmt] = [a0, loop]
+            if isinstance(st, ast.Return):
+                seq.append(ast.Return(value=ast.Name(id=acc, ctx=ast.Load())))
+            for x in seq:
+                ast.copy_location(x, st)
+                ast.fix_missing_locations(x)
+            return self._block(seq, cls, depth)
+        # X = list(gen()) / set(...) / dict(...) of a generator helper: X is the accumulator itself (no alias)
+        if isinstance(st, ast.Assign) and len(st.targets) == 1 and isinstance(st.targets[0], ast.Name) and isinstance(st.value, ast.Call) \
+                and isinstance(st.value.func, ast.Name) and st.value.func.id in ("list", "set", "dict") and len(st.value.args) == 1 \
+                and not st.value.keywords:
+            pre2: List[ast.stmt] = []
+            low = self._lower_gen_consumer(st.value, pre2, cls, depth, st)
+            if low is not None and isinstance(low, ast.Name) and pre2:
+                tmp_name = low.id
+                ren = _Renamer({tmp_name: st.targets[0].id})
+                return [ren.visit(x) for x in pre2]
         if isinstance(st, ast.For) and isinstance(st.iter, ast.Call):
             g = self._inline_gen_for(st, cls, depth)
             if g is not None:
@@ -851,8 +889,29 @@ class Normalizer:
         nm = e.func.id if isinstance(e.func, ast.Name) else None
         if nm not in self.CONSUMERS or len(e.args) != 1 or e.keywords and nm != "sorted":
             return None
-        if self._gen_target(e.args[0], cls) is None:
+        src, elt_of = e.args[0], None
+        # map(F, gen()) and (f(x) for x in gen()) consume the helper element by element as well
+        if isinstance(src, ast.Call) and isinstance(src.func, ast.Name) and src.func.id == "map" and len(src.args) == 2 and not src.keywords:
+            F = src.args[0]
+            fn_ = (A.dotted(F.func) or "").split(".")[-1] if isinstance(F, ast.Call) else None
+            if fn_ == "itemgetter" and len(F.args) == 1:
+                elt_of = lambda x, F=F: ast.Subscript(value=x, slice=copy.deepcopy(F.args[0]), ctx=ast.Load())      # noqa: E731
+            elif fn_ == "attrgetter" and len(F.args) == 1 and isinstance(F.args[0], ast.Constant) and isinstance(F.args[0].value, str):
+                elt_of = lambda x, F=F: ast.Attribute(value=x, attr=F.args[0].value, ctx=ast.Load())      # noqa: E731
+            else:
+                elt_of = lambda x, F=F: ast.Call(func=copy.deepcopy(F), args=[x], keywords=[])      # noqa: E731
+            src = src.args[1]
+        elif isinstance(src, (ast.GeneratorExp, ast.ListComp)) and len(src.generators) == 1 and not src.generators[0].ifs \
+                and isinstance(src.generators[0].target, ast.Name):
+            tname, elt = src.generators[0].target.id, src.elt
+            elt_of = lambda x, tname=tname, elt=elt: _SubstName({tname: x}).visit(copy.deepcopy(elt))      # noqa: E731
+            src = src.generators[0].iter
+        if self._gen_target(src, cls) is None:
             return None
+        if elt_of is not None and nm == "dict":
+            return None
+        e = copy.copy(e)
+        e.args = [src]
         kind, add = self.CONSUMERS[nm]
         tmp = self._fresh("acc")
         init = {"list": ast.List(elts=[], ctx=ast.Load()), "set": ast.Call(func=ast.Name(id="set", ctx=ast.Load()), args=[], keywords=[]),
@@ -866,8 +925,11 @@ class Normalizer:
         else:
             it = self._fresh("it")
             tgt = ast.Name(id=it, ctx=ast.Store())
+            item = ast.Name(id=it, ctx=ast.Load())
+            if elt_of is not None:
+                item = elt_of(item)
             leaf = ast.Expr(value=ast.Call(func=ast.Attribute(value=ast.Name(id=tmp, ctx=ast.Load()), attr=add, ctx=ast.Load()),
-                                           args=[ast.Name(id=it, ctx=ast.Load())], keywords=[]))
+                                           args=[item], keywords=[]))
         loop = ast.copy_location(ast.For(target=tgt, iter=e.args[0], body=[leaf], orelse=[], type_comment=None), st)
         ast.fix_missing_locations(loop)
         pre.extend(self._stmt(loop, cls, depth))
@@ -904,6 +966,11 @@ class Normalizer:
                         val[i] = self._hoist(x, pre, cls, depth, st)
                     elif isinstance(x, ast.keyword):
                         x.value = self._hoist(x.value, pre, cls, depth, st)
+        if isinstance(e, ast.Call) and isinstance(e.func, ast.Name) and e.func.id in getattr(self, "_local_fns", {}) and not e.keywords \
+                and not any(isinstance(a, ast.Starred) for a in e.args):
+            params, body = self._local_fns[e.func.id]
+            if len(params) == len(e.args) and all(isinstance(a, (ast.Name, ast.Attribute, ast.Subscript, ast.Constant)) for a in e.args):
+                return ast.copy_location(_SubstName(dict(zip(params, e.args))).visit(copy.deepcopy(body)), e)
         if isinstance(e, ast.Call):
             low = self._lower_gen_consumer(e, pre, cls, depth, st)
             if low is not None:
